@@ -160,7 +160,15 @@ func (u *universe) randCall(r *rand.Rand) Call {
 				}
 				ms += sign
 			}
-			switch x := r.Intn(10); {
+			switch x := r.Intn(11); {
+			case x == 10:
+				// a list mode and its mask (sometimes a name that is also a nick)
+				ms += string("beI"[r.Intn(3)])
+				if r.Intn(4) == 0 {
+					args = append(args, n())
+				} else {
+					args = append(args, "*!*@bad.host")
+				}
 			case x < 4:
 				ms += string(u.cflags[r.Intn(len(u.cflags))][0])
 			case x < 5:
